@@ -184,6 +184,11 @@ func createImageFunctions() { //nolint:funlen // this is a group of related func
 			if x < 0 || y < 0 {
 				return object.Errorf("image sizes must be positive")
 			}
+			// The pixels (4 bytes each) and the rasterizer's buffer (4 more, allocated on first draw) are kept
+			// in the images table for the life of the process: check them against the memory budget like
+			// every other allocation sized by the script (creating images in a loop used to end in a fatal
+			// out of memory error of the host).
+			object.MustBeOk(x * y * 8 / object.ObjectSize)
 			img := image.NewNRGBA(image.Rect(0, 0, x, y))
 			images[args[0]] = GrolImage{Image: img, Vect: vector.NewRasterizer(x, y), W: x, H: y}
 			return args[0]
